@@ -724,6 +724,7 @@ func (e *Eng) execInstr(fr *Frame, b *ssa.BasicBlock, ins ssa.Instruction, st *S
 	case *ssa.Alloc:
 		pt := derefType(x.Type())
 		ref := e.alloc(st, x.Comment)
+		e.allocType[ref] = pt
 		v := &Val{T: ref, Typ: x.Type(), KnownLen: -1}
 		if a, ok := types.Unalias(pt).Underlying().(*types.Array); ok {
 			v.Loc = &Loc{Kind: LArr, Base: ref, ET: a.Elem()}
@@ -1121,7 +1122,7 @@ func (e *Eng) makeIface(src *Val, srcT types.Type, ifT types.Type, name string) 
 	e.sc.declare(unbox, fmt.Sprintf("(declare-fun %s (Int) %s)", unbox, srt))
 	b := e.sc.define("if_"+name, "Int", sx(box, src.T), "make interface")
 	e.sc.assume(and(not(eq(b, "0")), eq(sx("typeof", b), e.typeID(srcT)), eq(sx(unbox, b), src.T)), "boxed value")
-	return &Val{T: b, Typ: ifT, KnownLen: -1, Lit: src.Lit}
+	return &Val{T: b, Typ: ifT, KnownLen: -1, Lit: src.Lit, Boxed: src}
 }
 
 func (e *Eng) execTypeAssert(fr *Frame, x *ssa.TypeAssert, st *State, g string, def func(ssa.Value, string, string) *Val) {
